@@ -284,7 +284,7 @@ def httpSendTail (fuel : Nat) (w : World) (i : Nat) (bufs : List Buf) (isContinu
     if !(w.get i).alive then (w, false)
     else
       let (w, _) := sendData w i bufs
-      if keepAlive then (w, true) else (disconnectConn fuel w i, false)
+      if keepAlive || (Gen.continueKeepsOpen && isContinue) then (w, true) else (disconnectConn fuel w i, false)
 
 /-- the HTTP version a response is sent with (`set_version`) -/
 def respVersion (c : Conn) : Byte × Byte :=
